@@ -754,20 +754,97 @@ func (e *c15Env) transition(root int, path []int, cutFrom int) c15Result {
 }
 
 // report re-executes a failing case (determinism rule) and records the violations.
+// c15Probe feeds the same log to many fresh instances (no snapshots): more than one outcome means that
+// apply itself is not a function of the log (hash-map iteration order is the only source in this code).
+func (e *c15Env) probe(root int, path []int) *c15Vio {
+	e.setHA(root)
+	cmds := e.full(root, path)
+	seedLen := len(e.roots[root].Seed)
+	const instances = 24
+	type outcome struct {
+		rets []string
+		hash string
+	}
+	var outs []outcome
+	for k := 0; k < instances; k++ {
+		in := c15NewInst()
+		o := outcome{rets: make([]string, len(cmds))}
+		for i := 0; i < len(cmds) && !in.dead; i++ {
+			o.rets[i] = in.apply(i, cmds[i])
+		}
+		if !in.dead {
+			if d, err := in.dumpHash(); err == nil {
+				o.hash = d.Hash
+			}
+		}
+		outs = append(outs, o)
+	}
+	for i := range cmds {
+		seen := map[string]bool{}
+		for _, o := range outs {
+			seen[o.rets[i]] = true
+		}
+		if len(seen) > 1 {
+			var rs []string
+			for r := range seen {
+				rs = append(rs, strconv.Quote(r))
+			}
+			sort.Strings(rs)
+			return &c15Vio{"nondeterministic_apply", cmds[i].Name, fmt.Sprintf("%d instances fed the same log: command #%d %s returned %d different results: %s",
+				instances, i-seedLen, cmds[i].Name, len(rs), strings.Join(rs, " / "))}
+		}
+	}
+	seen := map[string]bool{}
+	for _, o := range outs {
+		seen[o.hash] = true
+	}
+	if len(seen) > 1 {
+		return &c15Vio{"nondeterministic_apply", cmds[len(cmds)-1].Name + " :: catalogue", fmt.Sprintf("%d instances fed the same log end in %d different catalogues", instances, len(seen))}
+	}
+	return nil
+}
+
+// report re-executes a failing case (determinism rule) and records the violations.  If the verdict is not
+// reproducible, the probe decides: apply is nondeterministic (that is the violation, reported instead) or the
+// harness is broken (tool error).
 func (e *c15Env) report(root int, path []int, cutFrom int, res c15Result) {
 	sig := func(r c15Result) string {
-		var ss []string
+		set := map[string]bool{}
 		for _, v := range r.Vios {
-			ss = append(ss, v.Kind+"|"+v.Key)
+			set[v.Kind+"|"+v.Key] = true
+		}
+		ss := make([]string, 0, len(set))
+		for k := range set {
+			ss = append(ss, k)
 		}
 		sort.Strings(ss)
 		return strings.Join(ss, ";")
 	}
 	want := sig(res)
-	for i := 0; i < 4; i++ {
+	differs := ""
+	for i := 0; i < 4 && differs == ""; i++ {
 		if got := sig(e.transition(root, path, cutFrom)); got != want {
+			differs = got
+		}
+	}
+	resultKind := false
+	for _, v := range res.Vios {
+		if strings.Contains(v.Kind, "result_divergence") || v.Kind == "replica_divergence" {
+			resultKind = true
+		}
+	}
+	if differs != "" || (e.prop == "C15" && resultKind) {
+		nd := e.probe(root, path)
+		switch {
+		case nd != nil && e.prop == "C15":
+			res.Vios = []c15Vio{*nd}
+		case nd != nil:
+			e.rep.Count("transitions_with_nondeterministic_apply_skipped", 1)
+			e.rep.Note("observation (C15's subject, not a C16 violation): %s: %s", nd.Key, nd.Detail)
+			return
+		case differs != "":
 			panic(fmt.Sprintf("HARNESS: non-reproducible verdict for root %d path %v (%v): first %q, re-execution %q",
-				root, path, e.names(path), want, got))
+				root, path, e.names(path), want, differs))
 		}
 	}
 	cs := c15Case{Prop: e.prop, Root: root, Path: path, Names: e.names(path)}
@@ -832,10 +909,8 @@ func c15Run(t *testing.T, prop string) {
 			}
 			res := e.transition(cs.Root, cs.Path[:k], 0)
 			rep.Eval(1)
-			if k == len(cs.Path) {
-				for _, v := range res.Vios {
-					rep.Violation(v.Kind, v.Key, v.Detail, cs)
-				}
+			if k == len(cs.Path) && len(res.Vios) > 0 {
+				e.report(cs.Root, cs.Path, 0, res)
 			}
 		}
 		return
